@@ -18,7 +18,16 @@ PacketsLong == {Pk(1, 3, 5, 1, 0, SubSeq(Seq254, 1, n)) : n \in {253, 254, 255 -
 PacketsTcp == {Pk(1, 3, 3, 0, 0, x) : x \in {<<>>, <<0>>, <<255, 9>>, <<92, 1, 2>>}} \cup
               {Pk(1, 3, 2, 0, 0, <<65>>), Pk(1, 3, 3, 0, 1, <<16, 5>>)}
 CrtpsTcp == {<<0, 0, <<>>>>, <<15, 3, <<1>>>>, <<2, 1, <<255, 0>>>>}
-NoCrtps == {}
+\* sender threads (tcp mode): sender -> items it may send; <<0, c>> = CRTP packet c through
+\* send_packet, <<1, o>> = CPX packet (outcome tuple) through CPX.sendPacket.  Senders own their
+\* CRTP ports / CPX functions (CpxProps (5)).
+NoSenders == <<>>
+Send1Tcp == << {<<0, c>> : c \in CrtpsTcp} >>
+\* two threads on one link: the library thread (ports 0 and 2) and an application thread that sends
+\* on port 15 and CPXFunction.APP packets to the GAP8
+AppPk(x) == <<1, <<1, 3, 4, 5, 0, x>>>>
+Send2Tcp == << {<<0, <<0, 0, <<>>>>>>, <<0, <<2, 1, <<255, 0>>>>>>},
+               {<<0, <<15, 3, <<1>>>>>>, AppPk(<<7>>)} >>
 RFnsRoute == {1, 3}
 RFnsAll == P!Functions
 RFnsTcp == {2}
@@ -28,7 +37,11 @@ PacketsTcpSim == {Pk(s, 3, f, l, v, x) : s \in {1, 4}, f \in {2, 3}, l \in {0, 1
                                          x \in {<<>>, <<0>>, <<255, 9>>, <<92, 1, 2>>, <<243, 0, 0, 0, 255>>, <<16>>}}
 PacketsSim == {p \in PacketsAll : p[5] = 0 \/ (p[1] = 1 /\ p[2] = 1 /\ p[4] = 0)}
 RFnsSim == {1, 2, 3, 15}
-CrtpsSim == {<<p, c, x>> : p \in {0, 2, 15}, c \in {0, 3}, x \in {<<>>, <<1>>, <<255, 0, 7>>}}
+SendSim == << {<<0, <<p, c, x>>>> : p \in {0, 2}, c \in {0, 3}, x \in {<<>>, <<1>>, <<255, 0, 7>>}},
+              {<<0, <<15, c, x>>>> : c \in {0, 3}, x \in {<<>>, <<1>>, <<255, 0, 7>>}} \cup {AppPk(<<>>), AppPk(<<3, 0>>)} >>
+NoPackets == {}
+ASSUME \A ss \in {Send1Tcp, Send2Tcp, SendSim} : \A s, t \in DOMAIN ss : \A a \in ss[s], b \in ss[t] :
+          P!KeyOf(a) = P!KeyOf(b) => s = t
 
 \* the protocol's format is a bijection on the whole packet domain (checked once, not per state)
 ASSUME \A p \in PacketsAll : P!ValidPk(p) /\ P!Unwire(P!Wire(p)) = p /\ P!Frames(P!Frame(p)) = <<P!Wire(p)>>
